@@ -332,17 +332,21 @@ func c02Judge(c *core.Ctx, in []byte, section string, distinctByInput bool) {
 var errCallback = errors.New("callback error")
 
 // c02PreviousBig is a long message made of many well-formed attributes: any tail of it completes a truncated input.
+// (Both "previous" messages come from the independent encoder: nothing at package level may use the library, or the
+// first-use workloads of other properties would not be first.)
 var c02PreviousBig = func() []byte { //nolint:gochecknoglobals
-	m := stun.MustBuild(stun.BindingSuccess, stun.NewTransactionIDSetter([12]byte{8, 8, 8}))
+	var attrs []ref.Attr
 	for k := 0; k < 150; k++ {
-		m.Add(stun.AttrType(0x7e00+k%3), []byte{byte(k), 1, 2, 3})
+		attrs = append(attrs, ref.Attr{Type: uint16(0x7e00 + k%3), Value: []byte{byte(k), 1, 2, 3}})
 	}
 
-	return append([]byte(nil), m.Raw...)
+	return ref.Encode(0x0101, [12]byte{8, 8, 8}, attrs)
 }()
 
-var c02Previous = stun.MustBuild(stun.BindingSuccess, stun.NewTransactionIDSetter([12]byte{9, 9, 9}), //nolint:gochecknoglobals
-	stun.NewSoftware("previous"), stun.NewUsername("previous-user"), stun.RawAttribute{Type: 0x8020, Value: []byte{1, 2, 3, 4, 5, 6, 7, 8}}).Raw
+var c02Previous = ref.Encode(0x0101, [12]byte{9, 9, 9}, []ref.Attr{ //nolint:gochecknoglobals
+	{Type: 0x8022, Value: []byte("previous")}, {Type: 0x0006, Value: []byte("previous-user")},
+	{Type: 0x8020, Value: []byte{1, 2, 3, 4, 5, 6, 7, 8}},
+})
 
 // c02Lookups checks Get / Contains / ForEach against list semantics.
 func c02Lookups(c *core.Ctx, m *stun.Message, rm *ref.Msg, in []byte) {
